@@ -1671,6 +1671,24 @@ def _module_defs(module_name):
 def run(pids, quick=False, seed=0, verbose=True, snippets=False):
     """-> (number of mismatches, report dict)"""
     common.ensure_repo_on_path()
+    ext = {}     # dispatch: properties whose specs are translated by a module of their own (spec key `translator`)
+    for pid in pids:
+        for sp in srctie_specs.SPECS.get(pid, []):
+            if sp.get('translator'):
+                ext.setdefault(sp['translator'], [])
+                if pid not in ext[sp['translator']]:
+                    ext[sp['translator']].append(pid)
+    if ext:
+        import importlib
+        rest = [p for p in pids if not any(p in v for v in ext.values())]
+        n_all, rep_all = (run(rest, quick, seed, verbose, snippets) if (rest or snippets) else (0, {'_mismatches': []}))
+        for mod, ps in ext.items():
+            n1, rep1 = importlib.import_module(mod).selftest(ps, quick=quick, seed=seed, verbose=verbose)
+            n_all += n1
+            mm = rep_all.get('_mismatches', []) + rep1.pop('_mismatches', [])
+            rep_all.update(rep1)
+            rep_all['_mismatches'] = mm
+        return n_all, rep_all
     t0 = time.time()
     src, fns = build_driver(pids, common.REPO, snippets)
     rng = random.Random('py2lean-selftest-%d' % seed)
